@@ -4,6 +4,8 @@ import Vflow.Model.V9
 import Vflow.Props.C03
 import Vflow.Props.C06
 import Vflow.Gen.CacheKey
+import Vflow.Props.C05
+import Vflow.Proofs.PipelineSeq
 /-!
 # C04 — data is decoded only with the same exporter's latest template
 
@@ -327,5 +329,635 @@ example :
     (runAnn [] [([10,0,0,1], 256, tA), ([10,0,0,2], 256, tB), ([10,0,0,1], 256, tA')]).lookup [10,0,0,1] 256 = some tA' ∧
     (runAnn [] [([10,0,0,1], 256, tA), ([10,0,0,2], 256, tB), ([10,0,0,1], 256, tA')]).lookup [10,0,0,2] 256 = some tB := by
   decide
+
+/-! ## At the collector: the worker pool (finding K5) and the one-worker case
+
+Everything above is about the sequential `Decode` API.  At the collector (`vflow/ipfix.go`, `run`) the datagrams are
+taken from ONE UDP channel by N concurrent workers that share ONE template cache.  The pipeline model
+(`Model/Pipeline.lean`, C12 / C13) has exactly this structure: a schedule is a list of `Action`s (`run`) resp. a `Reach`
+derivation, the worker program is the regenerated `Gen.ipfixWorker`, and the ghost log records `received d`,
+`decoded id cache result` and `published id payload` events.  Read oldest first: `arrivals log` (the datagrams in
+arrival order) and `decodes log` (the decodes in the order in which they happened); the sequential semantics is
+`decodeAll K c0 ds` (decode one after the other, threading the cache) with `cacheAfter K c0 ds` the cache it leaves.
+
+* `k5_two_workers_counterexample` (+ `…_ipfix`): with TWO workers the property fails in the model — the model-level
+  witness of finding K5.
+* `one_worker_in_order`, `one_worker_published_sequential`: with at most ONE worker every schedule decodes in arrival
+  order against the sequentially threaded cache, for every codec and every `Canonical` worker program.
+* `one_worker_latest_template`: hence, for the IPFIX decoder model, C04 holds at the collector with one worker.  -/
+section Collector
+open Vflow.Pipeline Vflow.C12
+
+variable {K : Codec} {cfg : Cfg} {spec : CountSpec}
+
+/-- a toy template codec that makes the definition used visible: the cache maps (exporter, template id) to the
+number of the definition announced last (an association list, newest first); the datagram `[0, id, df]` announces
+definition `df` for `id` (a message without data, like an IPFIX message carrying only a template set); the datagram
+`[1, id, v]` is data for `id`: it decodes to `[id, df, v]` — naming the definition `df` the cache holds for this
+exporter and id at that moment — or to no message when there is none; the payload is the message itself -/
+@[reducible] def tplToy : Codec where
+  Cache := List ((Bytes × UInt8) × UInt8)
+  Msg := Bytes
+  decode := fun c addr bs =>
+    match bs with
+    | [0, id, df] => (some [], ((addr, id), df) :: c)
+    | [1, id, v] =>
+      match c.lookup (addr, id) with
+      | some df => (some [id, df, v], c)
+      | none => (none, c)
+    | _ => (none, c)
+  hasData := fun m => !m.isEmpty
+  marshal := fun m => some m
+
+instance : DecidableEq tplToy.Cache := inferInstanceAs (DecidableEq (List ((Bytes × UInt8) × UInt8)))
+instance : DecidableEq tplToy.Msg := inferInstanceAs (DecidableEq Bytes)
+
+/-- (0, id) for `received`, (1, id) for `decoded`: the skeleton of the log the K5 witness is about -/
+def evTag : Event K → Option (Nat × Nat)
+  | .received d => some (0, d.id)
+  | .decoded id _ _ => some (1, id)
+  | _ => none
+
+/-- the schedule of the K5 witness: two workers are started; the read loop receives the three datagrams `dA`, `dB`,
+`dD` of exporter `x` in this order (all three are in the UDP channel, in arrival order, before any worker runs); worker 0
+handles `dA` completely (11 steps), takes `dB` from the channel and stops right in front of its `decode` (5 steps);
+worker 1 takes `dD`, decodes and publishes it (15 steps); only then worker 0 goes on and decodes `dB`; the MQ consumer
+reads the one published message -/
+def k5Schedule (x dA dB dD : Bytes) : List Action :=
+  [.spawn none, .spawn none] ++ feed x dA ++ feed x dB ++ feed x dD ++
+    works 0 16 ++ works 1 15 ++ works 0 12 ++ [.mqConsume]
+
+/-- the same three datagrams handled by ONE worker (three full iterations) -/
+def oneWorkerSchedule (x dA dB dD : Bytes) : List Action :=
+  [.spawn none] ++ feed x dA ++ feed x dB ++ feed x dD ++ works 0 45 ++ [.mqConsume]
+
+/-- **finding K5, model-level witness** (a COUNTEREXAMPLE to C04 at the collector for the code as it is — not a property
+of a repaired code): a kernel-checked run of the pipeline semantics with the worker program the current source has
+(`Gen.ipfixWorker`), TWO workers, ONE exporter 192.0.2.1 and three datagrams — announce template 7 with definition
+`0xA`, re-announce template 7 with definition `0xB`, data for template 7 — under `k5Schedule`.  All three datagrams are
+received, in this order, before anything is decoded (log skeleton); the data datagram (id 2) is decoded BEFORE the
+re-announcement (id 1), against a cache that holds definition `0xA`; what is published and delivered for it is
+`[7, 0xA, 42]` — the payload the superseded definition gives — although `0xB` was received before it; the sequential
+semantics of the same arrivals (`decodeAll`, what `refinement` / `ipfix_history_roundtrip` are about) decodes it against
+the cache holding `0xB` and yields `[7, 0xB, 42]`.  Codec: `tplToy`. -/
+theorem k5_two_workers_counterexample :
+    let s := run (K := tplToy) { prog := Gen.ipfixWorker } (init tplToy [] (fun _ => []))
+      (k5Schedule [192, 0, 2, 1] [0, 7, 0xA] [0, 7, 0xB] [1, 7, 42])
+    s.workers.length = 2 ∧
+    (arrivals s.log).map (fun d => (d.id, d.addr, d.bytes)) =
+      [(0, [192, 0, 2, 1], [0, 7, 0xA]), (1, [192, 0, 2, 1], [0, 7, 0xB]), (2, [192, 0, 2, 1], [1, 7, 42])] ∧
+    s.log.reverse.filterMap evTag = [(0, 0), (0, 1), (0, 2), (1, 0), (1, 2), (1, 1)] ∧
+    decodes s.log =
+      [(0, [], some []),
+       (2, [(([192, 0, 2, 1], 7), 0xA)], some [7, 0xA, 42]),
+       (1, [(([192, 0, 2, 1], 7), 0xA)], some [])] ∧
+    s.delivered = [(2, [7, 0xA, 42])] ∧
+    decodeAll tplToy [] (arrivals s.log) =
+      [(0, [], some []),
+       (1, [(([192, 0, 2, 1], 7), 0xA)], some []),
+       (2, [(([192, 0, 2, 1], 7), 0xB), (([192, 0, 2, 1], 7), 0xA)], some [7, 0xB, 42])] ∧
+    decodes s.log ≠ decodeAll tplToy [] (arrivals s.log) := by
+  decide
+
+/-- the state of the witness is reachable (every `run` is a `Reach` derivation), so it refutes the conclusion of
+`one_worker_in_order` for two workers: no prefix of the sequential semantics is the list of decodes -/
+theorem k5_two_workers_not_in_order :
+    ∃ s : State tplToy, Reach { prog := Gen.ipfixWorker } (init tplToy [] (fun _ => [])) s ∧ s.workers.length = 2 ∧
+      ¬ ∃ n, decodes s.log = (decodeAll tplToy [] (arrivals s.log)).take n := by
+  refine ⟨_, reach_run _ _ (k5Schedule [192, 0, 2, 1] [0, 7, 0xA] [0, 7, 0xB] [1, 7, 42]), by decide, ?_⟩
+  rintro ⟨n, hn⟩
+  have h1 := congrArg (fun l => (l.map (·.1))[1]?) hn
+  have h3 : ∀ n, ((List.take n ([0, 1, 2] : List Nat))[1]? = some 2) → False := by
+    intro n; match n with
+    | 0 => simp
+    | 1 => simp
+    | n+2 => simp
+  refine h3 n ?_
+  have e1 : (decodes (run (K := tplToy) { prog := Gen.ipfixWorker } (init tplToy [] (fun _ => []))
+      (k5Schedule [192, 0, 2, 1] [0, 7, 0xA] [0, 7, 0xB] [1, 7, 42])).log).map (·.1) = [0, 2, 1] := by decide
+  have e2 : (decodeAll tplToy [] (arrivals (run (K := tplToy) { prog := Gen.ipfixWorker } (init tplToy [] (fun _ => []))
+      (k5Schedule [192, 0, 2, 1] [0, 7, 0xA] [0, 7, 0xB] [1, 7, 42])).log)).map (·.1) = [0, 1, 2] := by decide
+  simp only [List.map_take, e1, e2] at h1
+  simpa using h1.symm
+
+/-! ### the same witness on real IPFIX octets, decoded by the IPFIX decoder model -/
+
+/-- template 256, definition A: one field, sourceIPv4Address (element 8, 4 octets) -/
+def k5TplA : Template := ⟨256, 1, 0, [], [⟨8, 4, 0⟩]⟩
+/-- template 256, definition B: one field, destinationIPv4Address (element 12, 4 octets) -/
+def k5TplB : Template := ⟨256, 1, 0, [], [⟨12, 4, 0⟩]⟩
+/-- the three messages of the exporter: announce A; re-announce B; one data record, encoded with B (its latest) -/
+def k5MsgA : Wire.Ipfix.Msg := ⟨1000, 0, 1, [.tpl [k5TplA] []]⟩
+def k5MsgB : Wire.Ipfix.Msg := ⟨1001, 0, 1, [.tpl [k5TplB] []]⟩
+def k5MsgD : Wire.Ipfix.Msg := ⟨1002, 0, 1, [.data k5TplB [[⟨[10, 0, 0, 9], false⟩]] []]⟩
+/-- the float text is irrelevant here (no float field) -/
+def k5Ft : Val → Bytes := fun _ => []
+
+/-- **finding K5, model-level witness on real IPFIX octets** (a counterexample for the code as it is, see
+`k5_two_workers_counterexample`): the pipeline's codec is the IPFIX decoder / marshal model (`C05.ipfixCodec`), the three
+datagrams are the RFC 7011 encodings (`Wire.Ipfix.encodeMsg`) of: template 256 := sourceIPv4Address; template 256 :=
+destinationIPv4Address; a data set of template 256 with the value 10.0.0.9, encoded with the exporter's latest definition.
+Under `k5Schedule` (two workers) the collector publishes the value as element 8 (`"I":8`, sourceIPv4Address: the
+superseded definition); decode order 0, 2, 1. -/
+theorem k5_two_workers_counterexample_ipfix :
+    let s := run (K := C05.ipfixCodec k5Ft) { prog := Gen.ipfixWorker } (init (C05.ipfixCodec k5Ft) [] (fun _ => []))
+      (k5Schedule [192, 0, 2, 1] (Wire.Ipfix.encodeMsg k5MsgA) (Wire.Ipfix.encodeMsg k5MsgB) (Wire.Ipfix.encodeMsg k5MsgD))
+    s.log.reverse.filterMap evTag = [(0, 0), (0, 1), (0, 2), (1, 0), (1, 2), (1, 1)] ∧
+    s.delivered = [(2, str ("{\"AgentID\":\"192.0.2.1\",\"Header\":{\"Version\":10,\"Length\":24,\"ExportTime\":1002," ++
+      "\"SequenceNo\":0,\"DomainID\":1},\"DataSets\":[[{\"I\":8,\"V\":\"10.0.0.9\"}]]}"))] := by
+  decide +kernel
+
+/-- non-vacuity of the one-worker theorems, and the contrast: the same three datagrams, ONE worker
+(`oneWorkerSchedule`): decode order 0, 1, 2 and the value is published as element 12 (destinationIPv4Address, the
+latest definition) -/
+example :
+    let s := run (K := C05.ipfixCodec k5Ft) { prog := Gen.ipfixWorker } (init (C05.ipfixCodec k5Ft) [] (fun _ => []))
+      (oneWorkerSchedule [192, 0, 2, 1] (Wire.Ipfix.encodeMsg k5MsgA) (Wire.Ipfix.encodeMsg k5MsgB) (Wire.Ipfix.encodeMsg k5MsgD))
+    s.workers.length = 1 ∧
+    s.log.reverse.filterMap evTag = [(0, 0), (0, 1), (0, 2), (1, 0), (1, 1), (1, 2)] ∧
+    s.delivered = [(2, str ("{\"AgentID\":\"192.0.2.1\",\"Header\":{\"Version\":10,\"Length\":24,\"ExportTime\":1002," ++
+      "\"SequenceNo\":0,\"DomainID\":1},\"DataSets\":[[{\"I\":12,\"V\":\"10.0.0.9\"}]]}"))] := by
+  decide +kernel
+
+/-- the same with the toy codec: one worker, the data is decoded with definition `0xB`, and the decodes ARE the
+sequential semantics -/
+example :
+    let s := run (K := tplToy) { prog := Gen.ipfixWorker } (init tplToy [] (fun _ => []))
+      (oneWorkerSchedule [192, 0, 2, 1] [0, 7, 0xA] [0, 7, 0xB] [1, 7, 42])
+    s.workers.length = 1 ∧ pending s = [] ∧
+    s.delivered = [(2, [7, 0xB, 42])] ∧
+    decodes s.log = decodeAll tplToy [] (arrivals s.log) := by
+  decide
+
+/-! ### one worker: every schedule decodes in arrival order -/
+
+/-- **C04 at the collector, one worker (order)**: for EVERY codec, every `Canonical` worker program (in particular
+`Gen.ipfixWorker`, `C12.ipfixWorker_canonical`), every datagram sequence (arbitrary octets and exporters: the `rxRead`
+action), every initial cache, and EVERY schedule — every state `s` reachable from the initial state — in which at most
+one worker was ever started (`s.workers.length ≤ 1`: workers are only ever appended to `s.workers`, one per
+`Action.spawn`, and a worker that quits stays in the list as `halted`, see `Pipeline.step_workers_length`; so the
+hypothesis says that the schedule contains at most one enabled `spawn`):
+
+the datagrams are decoded in arrival order, and the cache against which the k-th received datagram is decoded is the
+cache obtained by folding `K.decode` over the datagrams received before it, in arrival order, from the initial cache:
+the list of `decoded id cache result` events (oldest first) is the prefix of length `n` of the sequential semantics
+`decodeAll K c0 (arrivals s.log)`; the shared cache in `s` is the sequential cache after these `n` datagrams; and the
+arrivals not decoded yet are exactly the pending ones (held by the worker in front of its `decode`, in the UDP channel,
+in the read loop), in this order.
+
+No hypothesis is needed on WHEN the worker is started (datagrams received earlier wait in the FIFO channel) nor on
+quitting (the quit branch of the worker's `select`, `Action.work i true _` at `recvOrQuit`, is only taken between two
+iterations: decoding stops, `n` stays); a worker that is started before the first datagram and never quits is a special
+case.  With two workers the statement is false: `k5_two_workers_not_in_order`.
+Proof: the invariant `Pipeline.Seq` over `Reach` (`Proofs/PipelineSeq.lean`). -/
+theorem one_worker_in_order (hc : Canonical spec cfg.prog) {c0 : K.Cache} {mem0 : BufId → Bytes} {s : State K}
+    (hr : Reach cfg (init K c0 mem0) s) (h1 : s.workers.length ≤ 1) :
+    ∃ n, n ≤ (arrivals s.log).length ∧
+      decodes s.log = (decodeAll K c0 (arrivals s.log)).take n ∧
+      s.cache = cacheAfter K c0 ((arrivals s.log).take n) ∧
+      (arrivals s.log).drop n = pending s :=
+  (reach_seq hc hr h1).in_order
+
+/-- the same over action lists: every schedule `acts` (any interleaving of read-loop steps with arbitrary datagrams,
+worker steps with or without the quit flag, mirror and MQ consumer steps; disabled actions are skipped) that contains at
+most one `spawn` — in particular `spawn` first, then anything without a `spawn` -/
+theorem one_worker_in_order_schedule (hc : Canonical spec cfg.prog) (c0 : K.Cache) (mem0 : BufId → Bytes)
+    (acts : List Action) (h1 : acts.countP Action.isSpawn ≤ 1) :
+    ∃ n, n ≤ (arrivals (run cfg (init K c0 mem0) acts).log).length ∧
+      decodes (run cfg (init K c0 mem0) acts).log =
+        (decodeAll K c0 (arrivals (run cfg (init K c0 mem0) acts).log)).take n ∧
+      (run cfg (init K c0 mem0) acts).cache =
+        cacheAfter K c0 ((arrivals (run cfg (init K c0 mem0) acts).log).take n) ∧
+      (arrivals (run cfg (init K c0 mem0) acts).log).drop n = pending (run cfg (init K c0 mem0) acts) := by
+  refine one_worker_in_order hc (reach_run cfg _ acts) ?_
+  have := run_workers_length cfg (init K c0 mem0) acts
+  simp only [init, List.length_nil, Nat.zero_add] at this
+  exact Nat.le_trans this h1
+
+/-- once nothing is pending (UDP channel empty, read loop between two datagrams, the worker past its decode) every
+received datagram has been decoded, in order -/
+theorem one_worker_all_decoded (hc : Canonical spec cfg.prog) {c0 : K.Cache} {mem0 : BufId → Bytes} {s : State K}
+    (hr : Reach cfg (init K c0 mem0) s) (h1 : s.workers.length ≤ 1) (hp : pending s = []) :
+    decodes s.log = decodeAll K c0 (arrivals s.log) ∧ s.cache = cacheAfter K c0 (arrivals s.log) := by
+  obtain ⟨n, hn, h2, h3, h4⟩ := one_worker_in_order hc hr h1
+  rw [hp, List.drop_eq_nil_iff] at h4
+  have hn' : n = (arrivals s.log).length := Nat.le_antisymm hn h4
+  subst hn'
+  rw [List.take_length] at h3
+  rw [h2, h3]
+  refine ⟨List.take_of_length_le ?_, rfl⟩
+  rw [decodeAll_length]; exact Nat.le_refl _
+
+/-- **C04 at the collector, one worker (what is published)**: every published payload is the outcome (decode, has
+data, marshal) of the k-th received datagram decoded against the cache the sequential semantics has after the first `k`
+arrivals — `k` being the position of that datagram in the arrival order -/
+theorem one_worker_published_sequential (hc : Canonical spec cfg.prog) {c0 : K.Cache} {mem0 : BufId → Bytes}
+    {s : State K} (hr : Reach cfg (init K c0 mem0) s) (h1 : s.workers.length ≤ 1)
+    (id : Nat) (p : Bytes) (hp : Event.published id p ∈ s.log) :
+    ∃ k d, (arrivals s.log)[k]? = some d ∧ d.id = id ∧
+      outcome K (K.decode (cacheAfter K c0 ((arrivals s.log).take k)) d.addr d.bytes).1 = some p :=
+  published_sequential hc hr h1 hp
+
+/-! ### one worker, IPFIX: data is decoded with the same exporter's latest template
+
+The premise is stated without any cache: `wfHistoryLatest` judges a history of (exporter, message) pairs in arrival
+order against the list of announcements made so far (`histAnns`, wire order) — every data set must have been encoded
+with the definition `latest` gives for (this exporter, this id), announcements earlier in the same message included
+(falling back on what the initial cache `c0` holds when the exporter has not announced the id in this history; `c0 = []`:
+a collector started without a cache file). -/
+
+open Wire.Ipfix in
+/-- the announcements of one set, in wire order -/
+def setAnns (a : Bytes) : FlowSet → List Ann
+  | .tpl ts _ => ts.map (fun t => (a, t.tid, t))
+  | .optTpl ts _ => ts.map (fun t => (a, t.tid, t))
+  | .data _ _ _ => []
+
+/-- the announcements of the sets of a message -/
+def setsAnns (a : Bytes) (sets : List Wire.Ipfix.FlowSet) : List Ann := sets.flatMap (setAnns a)
+
+/-- the announcements of a history of (exporter, message) pairs, oldest first -/
+def histAnns (h : List (Bytes × Wire.Ipfix.Msg)) : List Ann := h.flatMap (fun x => setsAnns x.1 x.2.sets)
+
+/-- the latest definition announced in `anns` by exporter `a` under `id`, else what the initial cache holds -/
+def latestOr (c0 : Cache) (anns : List Ann) (a : Bytes) (id : Nat) : Option Template :=
+  match latest anns a id with
+  | some t => some t
+  | none => c0.lookup a id
+
+open Wire.Ipfix in
+/-- `Wire.Ipfix.wfSet` without its only reference to a cache (RFC 7011 shape of the set) -/
+def wfSetShape : FlowSet → Bool
+  | .tpl ts pad => !ts.isEmpty && ts.all wfTemplate && (wfTplPad pad && wfSetLen (ts.map encodeTemplate).flatten pad)
+  | .optTpl ts pad => !ts.isEmpty && ts.all wfOptTemplate && (wfTplPad pad && wfSetLen (ts.map encodeOptTemplate).flatten pad)
+  | .data t records pad =>
+    decide (255 < t.tid) && decide (t.tid < 65536) &&
+    !records.isEmpty && records.all (wfRecord t) &&
+    (wfDataPad t pad && wfSetLen (records.map (encodeRecord t)).flatten pad)
+
+/-- a data set is encoded with the latest definition its exporter announced under its id -/
+def usesLatest (c0 : Cache) (anns : List Ann) (a : Bytes) : Wire.Ipfix.FlowSet → Bool
+  | .data t _ _ => latestOr c0 anns a t.tid == some t
+  | _ => true
+
+def wfSetsLatest (c0 : Cache) (a : Bytes) : List Ann → List Wire.Ipfix.FlowSet → Bool
+  | _, [] => true
+  | anns, fs :: rest => wfSetShape fs && usesLatest c0 anns a fs && wfSetsLatest c0 a (anns ++ setAnns a fs) rest
+
+def wfMsgLatest (c0 : Cache) (a : Bytes) (anns : List Ann) (m : Wire.Ipfix.Msg) : Bool :=
+  decide (Wire.Ipfix.msgLen m < 65536) && decide (m.exportTime < 4294967296) &&
+  decide (m.seq < 4294967296) && decide (m.domain < 4294967296) && wfSetsLatest c0 a anns m.sets
+
+/-- **the cache-free premise**: every message has the RFC 7011 shape and every data set is encoded with the latest
+definition announced before it, in arrival order, by the same exporter under the same id (`anns`: the announcements
+made before the history starts) -/
+def wfHistoryLatest (c0 : Cache) : List Ann → List (Bytes × Wire.Ipfix.Msg) → Bool
+  | _, [] => true
+  | anns, (a, m) :: h => wfMsgLatest c0 a anns m && wfHistoryLatest c0 (anns ++ setsAnns a m.sets) h
+
+/-- the records of the data sets of a message, each read with the template the set was encoded with, in wire order -/
+def dataRecs (m : Wire.Ipfix.Msg) : List Record :=
+  m.sets.flatMap (fun
+    | .data t records _ => records.map (Wire.Ipfix.expectedRecord t)
+    | _ => [])
+
+theorem runAnn_append (c : Cache) (x y : List Ann) : runAnn c (x ++ y) = runAnn (runAnn c x) y := by
+  simp [runAnn, List.foldl_append]
+
+theorem insertAll_eq_runAnn (a : Bytes) (c : Cache) (ts : List Template) :
+    Wire.insertAll a c ts = runAnn c (ts.map (fun t => (a, t.tid, t))) := by
+  simp [Wire.insertAll, runAnn, List.foldl_map]
+
+/-- the cache after a set is the cache after its announcements -/
+theorem applySet_cache (a : Bytes) (r : List Record) (c : Cache) (fs : Wire.Ipfix.FlowSet) :
+    (Wire.Ipfix.applySet a (r, c) fs).2 = runAnn c (setAnns a fs) := by
+  cases fs <;> simp [Wire.Ipfix.applySet, setAnns, insertAll_eq_runAnn, runAnn]
+
+theorem foldl_applySet (a : Bytes) (sets : List Wire.Ipfix.FlowSet) : ∀ (r : List Record) (c : Cache),
+    sets.foldl (Wire.Ipfix.applySet a) (r, c) =
+      (r ++ dataRecs ⟨0, 0, 0, sets⟩, runAnn c (setsAnns a sets)) := by
+  induction sets with
+  | nil => intro r c; simp [dataRecs, setsAnns, runAnn]
+  | cons fs rest ih =>
+    intro r c
+    have h2 := applySet_cache a r c fs
+    have h1 : (Wire.Ipfix.applySet a (r, c) fs).1 = r ++ dataRecs ⟨0, 0, 0, [fs]⟩ := by
+      cases fs <;> simp [Wire.Ipfix.applySet, dataRecs]
+    rw [List.foldl_cons, ← Prod.eta (Wire.Ipfix.applySet a (r, c) fs), h1, h2, ih]
+    simp [dataRecs, setsAnns, runAnn_append]
+
+/-- what the specification `Wire.Ipfix.expected` says, in terms of announcements: the records are those of the data
+sets, the cache is the cache after the message's announcements -/
+theorem expected_eq (a : Bytes) (c : Cache) (m : Wire.Ipfix.Msg) :
+    Wire.Ipfix.expected a c m = (dataRecs m, runAnn c (setsAnns a m.sets)) := by
+  simp only [Wire.Ipfix.expected, foldl_applySet, List.nil_append]
+  rfl
+
+theorem ids16_append {x y : List Ann} (hx : Ids16 x) (hy : Ids16 y) : Ids16 (x ++ y) := by
+  intro e he
+  rcases List.mem_append.mp he with h | h
+  · exact hx e h
+  · exact hy e h
+
+/-- announced template ids are 16-bit in a set of RFC shape -/
+theorem ids16_setAnns (a : Bytes) (fs : Wire.Ipfix.FlowSet) (h : wfSetShape fs = true) : Ids16 (setAnns a fs) := by
+  intro e he
+  cases fs with
+  | tpl ts pad =>
+    simp only [setAnns, List.mem_map] at he
+    obtain ⟨t, ht, rfl⟩ := he
+    simp only [wfSetShape, Bool.and_eq_true, List.all_eq_true] at h
+    have := h.1.2 t ht
+    simp only [Wire.Ipfix.wfTemplate, Bool.and_eq_true, decide_eq_true_eq] at this
+    exact this.1.1.1.1.1.1.2
+  | optTpl ts pad =>
+    simp only [setAnns, List.mem_map] at he
+    obtain ⟨t, ht, rfl⟩ := he
+    simp only [wfSetShape, Bool.and_eq_true, List.all_eq_true] at h
+    have := h.1.2 t ht
+    simp only [Wire.Ipfix.wfOptTemplate, Bool.and_eq_true, decide_eq_true_eq] at this
+    exact this.1.1.1.1.1.2
+  | data t records pad => simp [setAnns] at he
+
+/-- one set: judged against the concrete cache after the announcements `anns` = RFC shape ∧ encoded with the latest
+definition (`refinement`) -/
+theorem wfSet_eq (c0 : Cache) (a : Bytes) (anns : List Ann) (hi : Ids16 anns) (fs : Wire.Ipfix.FlowSet) :
+    Wire.Ipfix.wfSet a (runAnn c0 anns) fs = (wfSetShape fs && usesLatest c0 anns a fs) := by
+  cases fs with
+  | tpl ts pad => simp [Wire.Ipfix.wfSet, wfSetShape, usesLatest]
+  | optTpl ts pad => simp [Wire.Ipfix.wfSet, wfSetShape, usesLatest]
+  | data t records pad =>
+    simp only [Wire.Ipfix.wfSet, wfSetShape, usesLatest, latestOr]
+    by_cases hid : t.tid < 65536
+    · rw [refinement anns a t.tid hi hid c0]
+      generalize decide (255 < t.tid) = b1
+      generalize decide (t.tid < 65536) = b2
+      generalize ((match latest anns a t.tid with | some t => some t | none => c0.lookup a t.tid) == some t) = b3
+      generalize (!records.isEmpty) = b4
+      generalize records.all (Wire.Ipfix.wfRecord t) = b5
+      generalize (Wire.Ipfix.wfDataPad t pad && Wire.Ipfix.wfSetLen (records.map (Wire.Ipfix.encodeRecord t)).flatten pad) = b6
+      cases b1 <;> cases b2 <;> cases b3 <;> cases b4 <;> cases b5 <;> cases b6 <;> rfl
+    · simp [hid]
+
+theorem wfSets_eq (c0 : Cache) (a : Bytes) (sets : List Wire.Ipfix.FlowSet) : ∀ (anns : List Ann), Ids16 anns →
+    Wire.Ipfix.wfSets a (runAnn c0 anns) sets = wfSetsLatest c0 a anns sets := by
+  induction sets with
+  | nil => intro _ _; rfl
+  | cons fs rest ih =>
+    intro anns hi
+    simp only [Wire.Ipfix.wfSets, wfSetsLatest, wfSet_eq c0 a anns hi, applySet_cache, ← runAnn_append]
+    cases hs : wfSetShape fs with
+    | false => simp
+    | true => rw [ih _ (ids16_append hi (ids16_setAnns a fs hs))]
+
+theorem ids16_setsAnns (c0 : Cache) (a : Bytes) (sets : List Wire.Ipfix.FlowSet) : ∀ (anns : List Ann),
+    wfSetsLatest c0 a anns sets = true → Ids16 (setsAnns a sets) := by
+  induction sets with
+  | nil => intro _ _ e he; simp [setsAnns] at he
+  | cons fs rest ih =>
+    intro anns h
+    simp only [wfSetsLatest, Bool.and_eq_true] at h
+    have := ids16_append (ids16_setAnns a fs h.1.1) (ih _ h.2)
+    simpa [setsAnns] using this
+
+theorem wfMsg_eq (c0 : Cache) (a : Bytes) (anns : List Ann) (hi : Ids16 anns) (m : Wire.Ipfix.Msg) :
+    Wire.Ipfix.wfMsg a (runAnn c0 anns) m = wfMsgLatest c0 a anns m := by
+  simp only [Wire.Ipfix.wfMsg, wfMsgLatest, wfSets_eq c0 a m.sets anns hi]
+
+/-- **the two premises are one** (`refinement` lifted to histories of whole messages): judged against the concrete
+cache as the sequential decoder leaves it (`ipfixWfHistory`, the premise of `ipfix_history_roundtrip`) = RFC shape ∧
+every data set encoded with the latest definition its exporter announced (`wfHistoryLatest`, no cache) -/
+theorem wfHistory_eq_latest (c0 : Cache) (h : List (Bytes × Wire.Ipfix.Msg)) : ∀ (anns : List Ann), Ids16 anns →
+    ipfixWfHistory (runAnn c0 anns) h = wfHistoryLatest c0 anns h := by
+  induction h with
+  | nil => intro _ _; rfl
+  | cons x xs ih =>
+    intro anns hi
+    obtain ⟨a, m⟩ := x
+    simp only [ipfixWfHistory, wfHistoryLatest, wfMsg_eq c0 a anns hi, expected_eq, ← runAnn_append]
+    cases hm : wfMsgLatest c0 a anns m with
+    | false => simp
+    | true =>
+      simp only [wfMsgLatest, Bool.and_eq_true] at hm
+      rw [ih _ (ids16_append hi (ids16_setsAnns c0 a m.sets anns hm.2))]
+
+theorem ipfixExpectedRun_cache (h : List (Bytes × Wire.Ipfix.Msg)) : ∀ c : Cache,
+    (ipfixExpectedRun c h).2 = runAnn c (histAnns h) := by
+  induction h with
+  | nil => intro c; rfl
+  | cons x xs ih =>
+    intro c
+    obtain ⟨a, m⟩ := x
+    simp only [ipfixExpectedRun, ih, expected_eq]
+    simp [histAnns, runAnn_append]
+
+/-- the k-th message of a well-formed history is well formed against the cache the first k messages leave -/
+theorem wfHistory_index (h : List (Bytes × Wire.Ipfix.Msg)) : ∀ (k : Nat) (c : Cache) (a : Bytes) (m : Wire.Ipfix.Msg),
+    ipfixWfHistory c h = true → h[k]? = some (a, m) →
+    ipfixWfHistory c (h.take k) = true ∧ Wire.Ipfix.wfMsg a (ipfixExpectedRun c (h.take k)).2 m = true := by
+  induction h with
+  | nil => intro k c a m _ hk; simp at hk
+  | cons x xs ih =>
+    intro k c a m hw hk
+    obtain ⟨a0, m0⟩ := x
+    simp only [ipfixWfHistory, Bool.and_eq_true] at hw
+    cases k with
+    | zero =>
+      simp at hk
+      obtain ⟨rfl, rfl⟩ := hk
+      exact ⟨rfl, hw.1⟩
+    | succ k =>
+      simp at hk
+      obtain ⟨h1, h2⟩ := ih k _ a m hw.2 hk
+      simp only [List.take_succ_cons, ipfixWfHistory, ipfixExpectedRun, Bool.and_eq_true]
+      exact ⟨⟨hw.1, h1⟩, h2⟩
+
+/-- the j-th set of a message of the history uses the latest definition announced before it -/
+theorem wfSetsLatest_index (c0 : Cache) (a : Bytes) (sets : List Wire.Ipfix.FlowSet) :
+    ∀ (j : Nat) (anns : List Ann) (fs : Wire.Ipfix.FlowSet),
+    wfSetsLatest c0 a anns sets = true → sets[j]? = some fs →
+    usesLatest c0 (anns ++ setsAnns a (sets.take j)) a fs = true := by
+  induction sets with
+  | nil => intro j anns fs _ hj; simp at hj
+  | cons x xs ih =>
+    intro j anns fs hw hj
+    simp only [wfSetsLatest, Bool.and_eq_true] at hw
+    cases j with
+    | zero =>
+      simp at hj; subst hj
+      simpa [setsAnns] using hw.1.2
+    | succ j =>
+      simp at hj
+      have := ih j _ fs hw.2 hj
+      simpa [setsAnns, List.append_assoc] using this
+
+theorem wfHistoryLatest_index (c0 : Cache) (h : List (Bytes × Wire.Ipfix.Msg)) :
+    ∀ (k : Nat) (anns : List Ann) (a : Bytes) (m : Wire.Ipfix.Msg),
+    wfHistoryLatest c0 anns h = true → h[k]? = some (a, m) →
+    wfMsgLatest c0 a (anns ++ histAnns (h.take k)) m = true := by
+  induction h with
+  | nil => intro k anns a m _ hk; simp at hk
+  | cons x xs ih =>
+    intro k anns a m hw hk
+    obtain ⟨a0, m0⟩ := x
+    simp only [wfHistoryLatest, Bool.and_eq_true] at hw
+    cases k with
+    | zero =>
+      simp at hk
+      obtain ⟨rfl, rfl⟩ := hk
+      simpa [histAnns] using hw.1
+    | succ k =>
+      simp at hk
+      have := ih k _ a m hw.2 hk
+      simpa [histAnns, List.append_assoc] using this
+
+/-- the cache part of the IPFIX codec of the pipeline is the decoder model's -/
+theorem ipfixCodec_decode_cache (ft : Val → Bytes) (c : Cache) (a bs : Bytes) :
+    ((C05.ipfixCodec ft).decode c a bs).2 = (Ipfix.decode c a bs).2 := by
+  show (match Ipfix.decode c a bs with
+    | (.ok (h, recs, _), c') => (some (a, h, recs), c')
+    | (.error _, c') => (none, c')).2 = _
+  split <;> rename_i heq <;> rw [heq]
+
+/-- the sequential semantics of the pipeline's IPFIX codec over datagrams that are the encodings of `h` is `ipfixRun` -/
+theorem cacheAfter_ipfixRun (ft : Val → Bytes) (ds : List Dgram) : ∀ (h : List (Bytes × Wire.Ipfix.Msg)) (c : Cache),
+    ds.map (fun d => (d.addr, d.bytes)) = h.map (fun x => (x.1, Wire.Ipfix.encodeMsg x.2)) →
+    cacheAfter (C05.ipfixCodec ft) c ds = (ipfixRun c h).2 := by
+  induction ds with
+  | nil =>
+    intro h c he
+    cases h with
+    | nil => rfl
+    | cons _ _ => simp at he
+  | cons d ds ih =>
+    intro h c he
+    cases h with
+    | nil => simp at he
+    | cons x xs =>
+      obtain ⟨a, m⟩ := x
+      simp only [List.map_cons, List.cons.injEq, Prod.mk.injEq] at he
+      obtain ⟨⟨ha, hb⟩, hrest⟩ := he
+      show cacheAfter (C05.ipfixCodec ft) (((C05.ipfixCodec ft).decode c d.addr d.bytes).2) ds = _
+      rw [ipfixCodec_decode_cache, ih xs _ hrest, ha, hb]
+      rfl
+
+open Vflow.Spec Vflow.JsonTree Vflow.JsonLex in
+/-- **C04 at the collector with one worker (IPFIX)**: the pipeline's codec is the IPFIX decoder / marshal model
+(`C05.ipfixCodec`), the worker program any `Canonical` one (`Gen.ipfixWorker`: `C12.ipfixWorker_canonical`), the initial
+cache `c0` arbitrary, and at most one worker is ever started (`one_worker_in_order`).  Let the first datagrams received
+(`arrivals`, in arrival order; any number of exporters, interleaved in any way) be the RFC 7011 encodings of a history `h`
+in which every data set is encoded with the LATEST definition announced before it, in arrival order, by the same exporter
+under the same template id (`wfHistoryLatest c0 [] h`: no cache in the premise; whatever is received after `h` is
+arbitrary).  Then for EVERY schedule, whatever is published for the k-th datagram, `h[k] = (a, m)`, is the rendering of
+the tree of `m`'s header and of exactly the records of `m`'s data sets, each read with the template `t` its set was
+encoded with (`dataRecs`), in wire order — and that `t` is the latest definition exporter `a` announced under `t.tid`
+before that set (in the `k` earlier datagrams or earlier in `m`), or what the initial cache held if it announced none.
+
+Chain: `one_worker_published_sequential` (the worker decodes the k-th datagram against the sequentially threaded cache) ∘
+`ipfix_history_roundtrip` (the sequential decoder on a well-formed history) ∘ `wfHistory_eq_latest` (= `refinement`: the
+concrete cache returns the latest announcement) ∘ `C05.ipfix_wellformed_published` (C03 roundtrip and the marshal model).
+With two workers the conclusion fails for the very history of `k5_two_workers_counterexample_ipfix`
+(`k5_history_wf`). -/
+theorem one_worker_latest_template (ft : Val → Bytes) (hc : Canonical spec cfg.prog) {c0 : Cache}
+    {mem0 : BufId → Bytes} {s : State (C05.ipfixCodec ft)}
+    (hr : Reach cfg (init (C05.ipfixCodec ft) c0 mem0) s) (h1 : s.workers.length ≤ 1)
+    (h : List (Bytes × Wire.Ipfix.Msg))
+    (hrecv : h.map (fun x => (x.1, Wire.Ipfix.encodeMsg x.2)) <+: (arrivals s.log).map (fun d => (d.addr, d.bytes)))
+    (hwf : wfHistoryLatest c0 [] h = true)
+    (id : Nat) (p : Bytes) (hp : Event.published id p ∈ s.log) :
+    ∃ k d, (arrivals s.log)[k]? = some d ∧ d.id = id ∧
+      ∀ a m, h[k]? = some (a, m) →
+        d.addr = a ∧ d.bytes = Wire.Ipfix.encodeMsg m ∧
+        p = render (JsonTree.ipfixTree a (Wire.Ipfix.expectedHdr m) (C05.toJRecs ft (dataRecs m))) ∧
+        ∀ j t records pad, m.sets[j]? = some (.data t records pad) →
+          latestOr c0 (histAnns (h.take k) ++ setsAnns a (m.sets.take j)) a t.tid = some t := by
+  obtain ⟨k, d, hk, hid, hout⟩ := published_sequential hc hr h1 hp
+  refine ⟨k, d, hk, hid, ?_⟩
+  intro a m hkm
+  have hnil : Ids16 [] := by intro e he; simp at he
+  have hwf' : ipfixWfHistory c0 h = true := by
+    have := wfHistory_eq_latest c0 h [] hnil
+    rw [hwf] at this; exact this
+  obtain ⟨hpre, hm⟩ := wfHistory_index h k c0 a m hwf' hkm
+  obtain ⟨rest, hrest⟩ := hrecv
+  have hklt : k < h.length := by
+    rcases Nat.lt_or_ge k h.length with hl | hl
+    · exact hl
+    · rw [List.getElem?_eq_none hl] at hkm; simp at hkm
+  -- the k-th datagram is the encoding of `m` from `a`
+  have hkd : ((arrivals s.log).map (fun d => (d.addr, d.bytes)))[k]? = some (a, Wire.Ipfix.encodeMsg m) := by
+    rw [← hrest, List.getElem?_append_left (by simpa using hklt)]
+    simp [hkm]
+  rw [List.getElem?_map, hk] at hkd
+  simp only [Option.map_some, Option.some.injEq, Prod.mk.injEq] at hkd
+  obtain ⟨haddr, hbytes⟩ := hkd
+  -- the first k datagrams are the encodings of the first k messages
+  have htake : ((arrivals s.log).take k).map (fun d => (d.addr, d.bytes)) =
+      (h.take k).map (fun x => (x.1, Wire.Ipfix.encodeMsg x.2)) := by
+    rw [List.map_take, ← hrest, List.take_append_of_le_length (by simpa using Nat.le_of_lt hklt), ← List.map_take]
+  have hcache : cacheAfter (C05.ipfixCodec ft) c0 ((arrivals s.log).take k) = (ipfixExpectedRun c0 (h.take k)).2 := by
+    rw [cacheAfter_ipfixRun ft _ (h.take k) c0 htake, ipfix_history_roundtrip _ _ hpre]
+  rw [hcache, haddr, hbytes] at hout
+  refine ⟨haddr, hbytes, ?_, ?_⟩
+  · have hrecs : (Wire.Ipfix.expected a (ipfixExpectedRun c0 (h.take k)).2 m).1 = dataRecs m := by rw [expected_eq]
+    by_cases hne : (Wire.Ipfix.expected a (ipfixExpectedRun c0 (h.take k)).2 m).1 = []
+    · -- a message without data records is not published
+      have hdec := Ipfix.decode_roundtrip _ a m hm
+      simp only [C05.ipfixCodec, hdec, outcome, Option.bind_some, hne] at hout
+      simp at hout
+    · have := C05.ipfix_wellformed_published ft _ a m hm hne
+      rw [hout, hrecs] at this
+      exact Option.some.inj this
+  · intro j t records pad hj
+    have h2 := wfHistoryLatest_index c0 h k [] a m hwf hkm
+    simp only [wfMsgLatest, Bool.and_eq_true] at h2
+    have h3 := wfSetsLatest_index c0 a m.sets j _ _ h2.2 hj
+    simp only [usesLatest, List.nil_append, beq_iff_eq] at h3
+    exact h3
+
+/-- … with the worker loop the current source has, a collector started with an empty cache, and the whole arrival
+sequence well formed: `latest` itself -/
+theorem one_worker_latest_template_current_source (ft : Val → Bytes) (hprog : cfg.prog = Gen.ipfixWorker)
+    {mem0 : BufId → Bytes} {s : State (C05.ipfixCodec ft)}
+    (hr : Reach cfg (init (C05.ipfixCodec ft) [] mem0) s) (h1 : s.workers.length ≤ 1)
+    (h : List (Bytes × Wire.Ipfix.Msg))
+    (hrecv : (arrivals s.log).map (fun d => (d.addr, d.bytes)) = h.map (fun x => (x.1, Wire.Ipfix.encodeMsg x.2)))
+    (hwf : wfHistoryLatest [] [] h = true)
+    (id : Nat) (p : Bytes) (hp : Event.published id p ∈ s.log) :
+    ∃ k d a m, (arrivals s.log)[k]? = some d ∧ d.id = id ∧ h[k]? = some (a, m) ∧
+      p = Spec.render (JsonTree.ipfixTree a (Wire.Ipfix.expectedHdr m) (C05.toJRecs ft (dataRecs m))) ∧
+      ∀ j t records pad, m.sets[j]? = some (.data t records pad) →
+        latest (histAnns (h.take k) ++ setsAnns a (m.sets.take j)) a t.tid = some t := by
+  have hc : Canonical .onMsg cfg.prog := by rw [hprog]; exact ipfixWorker_canonical
+  obtain ⟨k, d, hk, hid, hall⟩ := one_worker_latest_template ft hc hr h1 h (by rw [hrecv]; exact List.prefix_refl _) hwf id p hp
+  have hlen : k < h.length := by
+    have : k < (arrivals s.log).length := by
+      rcases Nat.lt_or_ge k (arrivals s.log).length with hl | hl
+      · exact hl
+      · rw [List.getElem?_eq_none hl] at hk; simp at hk
+    have e := congrArg List.length hrecv
+    simp only [List.length_map] at e
+    omega
+  obtain ⟨⟨a, m⟩, hkm⟩ : ∃ x, h[k]? = some x := ⟨h[k], List.getElem?_eq_getElem hlen⟩
+  obtain ⟨_, _, hp', hl⟩ := hall a m hkm
+  refine ⟨k, d, a, m, hk, hid, hkm, hp', ?_⟩
+  intro j t records pad hj
+  have := hl j t records pad hj
+  simp only [latestOr] at this
+  cases hlat : latest (histAnns (h.take k) ++ setsAnns a (m.sets.take j)) a t.tid with
+  | some t' => rw [hlat] at this; exact this
+  | none => rw [hlat] at this; simp [Cache.lookup] at this
+
+/-- the history of the K5 witness satisfies the premise of `one_worker_latest_template` (the data set is encoded with
+definition B, the exporter's latest) — with two workers its conclusion fails (`k5_two_workers_counterexample_ipfix`:
+published as element 8) — and the same data set encoded with the superseded definition A does not -/
+theorem k5_history_wf :
+    wfHistoryLatest [] [] [([192, 0, 2, 1], k5MsgA), ([192, 0, 2, 1], k5MsgB), ([192, 0, 2, 1], k5MsgD)] = true ∧
+    dataRecs k5MsgD = [[⟨12, 0, .ip [10, 0, 0, 9]⟩]] ∧
+    wfHistoryLatest [] [] [([192, 0, 2, 1], k5MsgA), ([192, 0, 2, 1], k5MsgB),
+      ([192, 0, 2, 1], ⟨1002, 0, 1, [.data k5TplA [[⟨[10, 0, 0, 9], false⟩]] []]⟩)] = false := by
+  decide +kernel
+
+end Collector
 
 end Vflow.C04
